@@ -172,6 +172,60 @@ def grep_forbidden(module: str):
     return hits
 
 
+# --------------------------------------------------------------------------- interpreter settings
+
+SETTINGS = {
+    "default": [],
+    # asserts compiled away
+    "optimize": ["-O"],
+    # UserWarning raised in the library's own data / calculator modules is an error (formulas.py and fasta.py are
+    # left out: pyparsing attributes its deprecation warnings to the former, the latter deprecates tritium itself)
+    "userwarning": [x for m in ("nsf", "xsf", "activation", "core", "mass", "density", "util", "cromermann",
+                                "magnetic_ff", "covalent_radius", "crystal_structure", "nsf_tables")
+                    for x in ("-W", "error::UserWarning:periodictable.%s" % m)]
+    + ["-W", "error::UserWarning:__main__"],     # (a warning raised with stacklevel=2 is attributed to the caller)
+    "npraise": [],
+    "decimal4": [],
+}
+
+
+def settings_probe(run):
+    """a small fixed set of the property's values, computed in fresh interpreters under process-global settings an
+    application is entitled to have (python -O, UserWarning as error in the library's modules, numpy error state
+    'raise', a 4-digit decimal context): they do not depend on the setting.  See ptv/flags_probe.py."""
+    import json as _json
+    env = dict(os.environ, PYTHONPATH=str(VERIF / "harness"), PYTHONDONTWRITEBYTECODE="1")
+    env.pop("PYTHONOPTIMIZE", None)
+    procs = {}
+    for name, flags in SETTINGS.items():
+        procs[name] = subprocess.Popen([sys.executable] + flags + ["-m", "ptv.flags_probe", str(REPO), run.pid, name],
+                                       stdout=subprocess.PIPE, stderr=subprocess.PIPE, text=True, env=env)
+    outs = {}
+    for name, p in procs.items():
+        try:
+            so, se = p.communicate(timeout=600)
+        except subprocess.TimeoutExpired:
+            p.kill()
+            raise InfraError("settings probe (%s) timed out" % name)
+        line = next((l for l in so.splitlines() if l.startswith("PROBE ")), None)
+        outs[name] = _json.loads(line[6:]) if line else {"<interpreter>": "no output: " + se.strip()[-300:]}
+    ref = outs["default"]
+    for name, got in outs.items():
+        if name == "default":
+            continue
+        for key in sorted(set(ref) | set(got)):
+            run.count(key=("settings", name, key), nontrivial=True, tag="interpreter-settings")
+            if ref.get(key) != got.get(key):
+                run.violation("under the interpreter setting %r the value %r is %s; by default it is %s"
+                              % (name, key, str(got.get(key))[:300], str(ref.get(key))[:300]),
+                              dict(kind="interpreter-setting", setting=name, flags=SETTINGS[name], value=key,
+                                   got=str(got.get(key))[:400], default=str(ref.get(key))[:400]))
+    bad = [k for k, v in ref.items() if isinstance(v, str) and v.startswith("raises ") and k == "<section>"]
+    if bad:
+        run.violation("the probe values cannot be computed on this tree: %s" % ref["<section>"][:300],
+                      dict(kind="interpreter-setting", setting="default", value="<section>"))
+
+
 # --------------------------------------------------------------------------- driver
 
 def run_driver(sub: str, lines, timeout=3000):
